@@ -367,9 +367,25 @@ def must_calls(repo, col, prop):
             return memo[k]
         memo[k] = False  # recursion guard
 
+        # local aliases of a receiver (`base = self.base` ... `base.to_jax()`): names bound once to an attribute chain
+        alias = {}
+        stores_ = {}
+        for n_ in ast.walk(fi.node):
+            if isinstance(n_, ast.Name) and isinstance(n_.ctx, ast.Store):
+                stores_[n_.id] = stores_.get(n_.id, 0) + 1
+        for n_ in ast.walk(fi.node):
+            if isinstance(n_, ast.Assign) and len(n_.targets) == 1 and isinstance(n_.targets[0], ast.Name) and stores_.get(n_.targets[0].id) == 1 \
+                    and isinstance(n_.value, ast.Attribute):
+                alias[n_.targets[0].id] = unparse(n_.value)
+
+        def recv_text(v):
+            txt = unparse(v)
+            head = txt.split(".")[0]
+            return alias[head] + txt[len(head):] if head in alias else txt
+
         def pred(c):
             f = c.func
-            if isinstance(f, ast.Attribute) and f.attr == name and (recv is None or unparse(f.value) == recv):
+            if isinstance(f, ast.Attribute) and f.attr == name and (recv is None or recv_text(f.value) == recv):
                 return True
             if isinstance(f, ast.Name) and f.id == name and recv is None:
                 return True
